@@ -362,6 +362,38 @@ func buildJavaTree(c *run.Ctx, o *run.Outcome, dir string) (root string, ok bool
 		}
 		o.Count("projects_with_one_simple_class_name_in_several_packages_used_from_another", 1)
 	}
+	// an override chain of 3-5 levels (interface, abstract class, classes) with the method declared on every level and
+	// called through every level
+	if r.Chance(2, 3) {
+		levels := r.Range(3, 5)
+		write := func(name, text string) {
+			path := filepath.Join(dir, "chain", name+".java")
+			os.MkdirAll(filepath.Dir(path), 0o755)
+			ioutil.WriteFile(path, []byte("package com.acme.chain;\n\n"+text), 0o644)
+		}
+		write("Store", "public interface Store {\n    void save(String key);\n    int size();\n}\n")
+		write("Store1", "public abstract class Store1 implements Store {\n    public void save(String key) { }\n    public int size() { return 0; }\n}\n")
+		for l := 2; l < levels; l++ {
+			write(fmt.Sprintf("Store%d", l), fmt.Sprintf("public class Store%d extends Store%d {\n    @Override public void save(String key) { }\n    @Override public int size() { return %d; }\n}\n", l, l-1, l))
+		}
+		var sb strings.Builder
+		sb.WriteString("public class StoreClient {\n    void run(Store s0")
+		for l := 1; l < levels; l++ {
+			sb.WriteString(fmt.Sprintf(", Store%d s%d", l, l))
+		}
+		sb.WriteString(") {\n")
+		for l := 0; l < levels; l++ {
+			for k := r.Range(1, 3); k > 0; k-- {
+				sb.WriteString(fmt.Sprintf("        s%d.save(\"k\");\n", l))
+			}
+			if r.Bool() {
+				sb.WriteString(fmt.Sprintf("        s%d.size();\n", l))
+			}
+		}
+		sb.WriteString("    }\n}\n")
+		write("StoreClient", sb.String())
+		o.Count("projects_with_an_override_chain_of_3+_levels", 1)
+	}
 	// a generated-looking class with 70-110 methods of pairwise different parameter counts (6..): one sized bad-smell
 	// kind with many findings whose sizes are untied, written in shuffled order (`bs -s type` must order them all)
 	if r.Chance(2, 3) {
@@ -774,6 +806,7 @@ func gitCase(c *run.Ctx, o *run.Outcome) {
 		}
 		msgs = append(msgs, m)
 	}
+	logText := gitgen.RenderLog(hist)
 	n, _ := reps(c.Tier)
 	o.Count("git_cases", 1)
 	o.Shape = run.ShapeHash("git", len(hist))
@@ -812,6 +845,18 @@ func gitCase(c *run.Ctx, o *run.Outcome) {
 			}
 			ob["top authors order (untied commit counts)"] = untied(keys, ids)
 			ob["basic summary"] = canon(toGeneric(cocagit.BasicSummary(cp)), map[string]bool{}, "", 1)
+			// the same summaries from the history as the log parser delivers it (the order of the changes inside a
+			// commit is whatever the parser produces in this execution)
+			parsed := cocagit.BuildMessageByInput(logText)
+			ob["top authors (parsed log)"] = canon(toGeneric(cocagit.GetTopAuthors(parsed)), listUnordered, "", 0)
+			ob["team summary (parsed log)"] = canon(toGeneric(cocagit.GetTeamSummary(parsed)), listUnordered, "", 0)
+			ob["basic summary (parsed log)"] = canon(toGeneric(cocagit.BasicSummary(parsed)), map[string]bool{}, "", 1)
+			var ageRows []string
+			for _, a := range cocagit.CalculateCodeAge(parsed) {
+				ageRows = append(ageRows, a.EntityName+"@"+a.Age.String())
+			}
+			sort.Strings(ageRows)
+			ob["code age (parsed log)"] = strings.Join(ageRows, ",")
 			ob["changelog map"] = canon(toGeneric(cocagit.BuildChangeMap(cp)), map[string]bool{}, "", 1)
 			// the printed changelog summary (`coca git -m`): sections as a collection, rows inside a section as printed
 			var buf bytes.Buffer
